@@ -76,6 +76,9 @@ def body_wire(b, rng=None):
             # the form-encoded JSONP body of a polling client: d=<percent-encoded payload> (the separator travels as %1E); same packets
             return ('d=' + urllib.parse.quote(wire)).encode(), None
         return wire.encode(), None
+    if b[0] == 'lenzero':
+        # a body is sent but the declared length is 0 (or there is no Content-Length at all): nothing may be read, nothing is acted upon
+        return '\x1e'.join(cpkt_wire(p, rng) for p in b[1]).encode(), (0 if b[2] == 0 else 'absent')
     if b[0] == 'undec':
         v = b[1] if len(b) > 1 else 0
         return [b'x\x1e4a', '\x1e'.join(['4a'] * 17).encode(), b'4a\x1e\x1e4b', b'bQ', b'\x1e',
@@ -87,6 +90,8 @@ def body_wire(b, rng=None):
 
 
 def body_term(b):
+    if b[0] == 'lenzero':
+        return '(BPackets [])'
     if b[0] == 'pk':
         return '(BPackets %s)' % qlist([cpkt_term(p) for p in b[1]])
     return 'BUndecodable' if b[0] == 'undec' else 'BTooLong'
@@ -318,7 +323,10 @@ class Runner:
                 q['sid'] = '(Some %s)' % self.sref_term(op[1])
             elif k == 'post':
                 wire, decl = body_wire(op[2], self.rng)
-                rid = d.request(dict(method='POST', query='transport=polling&sid=' + self.real_sid(op[1]), body=wire))
+                rq = dict(method='POST', query='transport=polling&sid=' + self.real_sid(op[1]), body=wire)
+                if decl is not None:
+                    rq['content_length'] = None if decl == 'absent' else decl
+                rid = d.request(rq)
                 q.update(method='MPost', sid='(Some %s)' % self.sref_term(op[1]), body=body_term(op[2]))
             elif k == 'upgrade':
                 c = self.nc
@@ -603,7 +611,7 @@ def gen_history(rng, cfg, length=25, weights=None, max_sessions=4, allow_disc_ha
             elif r < 0.92:
                 body = ('undec', rng.randrange(6))
             else:
-                body = ('toolong', rng.randrange(2))
+                body = ('toolong', rng.randrange(2)) if rng.random() < 0.6 else ('lenzero', [cpkt() for _ in range(rng.choice([1, 2, 3]))], rng.randrange(2))
             ops.append(('post', pick_session(), body))
         elif k == 'upgrade':
             s = pick_session()
